@@ -16,10 +16,14 @@ def rnd(n, rng, alphabet="ACGT"):
 
 
 def count_sites(s, site):
-    """(forward, reverse) occurrences of the site on the circle s (case-insensitive)."""
+    """(forward, reverse) occurrences of the site on the circle s (case-insensitive); a site letter may be an
+    ambiguity code standing for its IUPAC set"""
     u = s.upper()
     d = u + u[:len(site) - 1]
     r = dna.rc(site)
+    if set(site) - set("ACGT"):
+        at = lambda q, i: all(d[i + j] in IUPAC[q[j]] for j in range(len(q)))   # noqa: E731
+        return sum(1 for i in range(len(u)) if at(site, i)), sum(1 for i in range(len(u)) if at(r, i))
     f = sum(1 for i in range(len(u)) if d.startswith(site, i))
     v = sum(1 for i in range(len(u)) if d.startswith(r, i))
     return f, v
@@ -43,10 +47,14 @@ class Geometry(object):
     def fill(self, n, rng, tries):
         return rnd(n, rng, "ACGT" if tries < 8 else self.safe)
 
+    def inst(self, rng):
+        """one concrete spelling of the recognition site (the site itself unless it contains ambiguity codes)"""
+        return "".join(rng.choice(IUPAC[c]) for c in self.site)
+
     def module(self, o5, t, o3, b, rng):
         for i in range(40):
             x, y = self.fill(self.off, rng, i), self.fill(self.off, rng, i)
-            s = self.site + x + o5 + t + o3 + y + self.rcsite + b
+            s = self.inst(rng) + x + o5 + t + o3 + y + dna.rc(self.inst(rng)) + b
             if count_sites(s, self.site) == (1, 1):
                 return s
         return None
@@ -54,7 +62,7 @@ class Geometry(object):
     def vector(self, oD, oU, p, b, rng):
         for i in range(40):
             x, y = self.fill(self.off, rng, i), self.fill(self.off, rng, i)
-            s = oD + y + self.rcsite + p + self.site + x + oU + b
+            s = oD + y + dna.rc(self.inst(rng)) + p + self.inst(rng) + x + oU + b
             if count_sites(s, self.site) == (1, 1):
                 return s
         return None
